@@ -352,6 +352,8 @@ func runC13(e *Env) {
 		for _, q := range []string{"net/observation.Handler.NewObservation", "net/blockwise.BlockWise.processReceivedMessage"} {
 			checkErrCell(e, "C13.R1", q)
 		}
+		// a removal closure handed out to the caller must not compute its key from a message that is recycled when the function returns
+		c12Containers(e, releaserParams(e), "C13.R1", "c")
 	}
 	if e.want("C13.R2") {
 		c13Sweeps(e)
@@ -739,6 +741,30 @@ func c13Acquisitions(e *Env) {
 						ok = true
 					}
 				}
+			}
+			// … and ALWAYS then: from the counter==0 edge no path keeps the entry (an extra condition would strand entries for ever,
+			// the map has no sweep)
+			for _, i := range core.IfsOf(cb) {
+				cmp, isCmp := core.AsCmp(i.Cond)
+				if !isCmp || cmp.Op != token.EQL {
+					continue
+				}
+				if k, isK := core.ConstInt(cmp.Y); !isK || k != 0 {
+					continue
+				}
+				guard := i
+				q := &core.PathQuery{Fn: cb, From: guard,
+					Target: func(in ssa.Instruction) bool {
+						ret, isRet := in.(*ssa.Return)
+						if !isRet {
+							return false
+						}
+						b, isC := core.ConstBool(core.RetVal(ret, 1))
+						return !isC || !b
+					},
+					EdgeOK: func(x *ssa.If, branch bool) bool { return x != guard || branch }}
+				w := q.Find()
+				e.R.Check(w == nil, rule, "net/client/limitParallelRequests.LimitParallelRequests.releaseEndpoint:always-deleted-at-zero", e.pos(guard), "every path from counter == 0 returns delete=true", "with the in-flight counter at zero the queue entry can still be kept: "+e.trace(w))
 			}
 		}
 		e.R.Check(ok, rule, "net/client/limitParallelRequests.LimitParallelRequests.releaseEndpoint:delete-at-zero", e.fpos(f), "the queue entry is deleted when its in-flight counter reaches zero", "the endpoint queue entry is never deleted at zero")
